@@ -13,6 +13,7 @@ mod syntaxmode;
 mod bytecode;
 mod include;
 mod stepwise;
+mod replmode;
 
 use serde_json::{json, Value as J};
 use std::io::{BufRead, Write};
@@ -47,6 +48,7 @@ fn handle(req: &J) -> J {
     "ctx" => bytecode::run_ctx(req),
     "include" => include::run(req),
     "stepwise" => stepwise::run(req),
+    "repl" => replmode::run(req),
     _ => json!({"error":"unknown mode"}),
   };
   if let Some(id) = req.get("id") {
@@ -57,8 +59,20 @@ fn handle(req: &J) -> J {
 
 fn exec_loop() {
   let stdin = std::io::stdin();
-  let stdout = std::io::stdout();
-  let mut so = stdout.lock();
+  // mech prints to stdout in places (`:step #i`, `:load`, profiling): responses go to a private duplicate of fd 1 and
+  // fd 1 itself is pointed at /dev/null, so that nothing mech prints can corrupt the request/response protocol
+  let mut so: std::fs::File = unsafe {
+    use std::os::fd::FromRawFd;
+    let keep = libc::dup(1);
+    let null = libc::open(b"/dev/null\0".as_ptr() as *const libc::c_char, libc::O_WRONLY);
+    if keep >= 0 && null >= 0 {
+      libc::dup2(null, 1);
+      libc::close(null);
+      std::fs::File::from_raw_fd(keep)
+    } else {
+      std::fs::File::from_raw_fd(1)
+    }
+  };
   for line in stdin.lock().lines() {
     let line = match line {
       Ok(l) => l,
